@@ -3294,6 +3294,10 @@ class quantized_hswish(quantized_bits):  # pylint: disable=invalid-name
     """Add relu_shift and relu_upper_bound to the config file."""
 
     base_config = super(quantized_hswish, self).get_config()
+    # quantized_hswish.__init__ does not take these quantized_bits options.
+    for key in ("keep_negative", "elements_per_scale", "min_po2_exponent",
+                "max_po2_exponent", "post_training_scale"):
+      base_config.pop(key, None)
 
     config = {
         "relu_shift": self.relu_shift,
